@@ -964,6 +964,33 @@ static JanetSlot janetc_while(JanetFopts opts, int32_t argn, const Janet *argv) 
     return janetc_cslot(janet_wrap_nil());
 }
 
+/* The VM puts argument k in stack slot k, but the register allocator never hands out the
+ * reserved temporaries 0xF0-0xFF, so from the 241st argument on the register allocated for
+ * an argument is higher than the stack slot it arrives in. Move those arguments to their
+ * registers on function entry, highest first. Arguments at 0x100 and above go through the
+ * temporary 0xFF, whose own argument is parked in a spare register meanwhile. */
+static void janetc_fn_moveargs(JanetCompiler *c, int32_t *argregs) {
+    int32_t n = janet_v_count(argregs);
+    int32_t park = -1;
+    if (n <= 0xF0) return;
+    if (n > 0x100) {
+        park = janetc_allocfar(c);
+        janetc_emit(c, ((uint32_t) park << 16) | (0xFF << 8) | JOP_MOVE_FAR);
+        for (int32_t k = n - 1; k >= 0x100; k--) {
+            janetc_emit(c, ((uint32_t) k << 16) | (0xFF << 8) | JOP_MOVE_NEAR);
+            janetc_emit(c, ((uint32_t) argregs[k] << 16) | (0xFF << 8) | JOP_MOVE_FAR);
+        }
+    }
+    for (int32_t k = (n > 0x100 ? 0xFE : n - 1); k >= 0xF0; k--) {
+        janetc_emit(c, ((uint32_t) argregs[k] << 16) | ((uint32_t) k << 8) | JOP_MOVE_FAR);
+    }
+    if (park >= 0) {
+        janetc_emit(c, ((uint32_t) park << 16) | (0xFF << 8) | JOP_MOVE_NEAR);
+        janetc_emit(c, ((uint32_t) argregs[0xFF] << 16) | (0xFF << 8) | JOP_MOVE_FAR);
+        janetc_regalloc_free(&c->scope->ra, park);
+    }
+}
+
 static JanetSlot janetc_fn(JanetFopts opts, int32_t argn, const Janet *argv) {
     JanetCompiler *c = opts.compiler;
     JanetFuncDef *def;
@@ -1015,6 +1042,8 @@ static JanetSlot janetc_fn(JanetFopts opts, int32_t argn, const Janet *argv) {
     JanetSlot *named_params = NULL;
     JanetTable *named_table = NULL;
     JanetSlot named_slot;
+    /* Registers of the slots that receive stack arguments, in stack order */
+    int32_t *argregs = NULL;
 
     /* Compile function parameters */
     params = janet_unwrap_tuple(argv[parami]);
@@ -1086,16 +1115,25 @@ static JanetSlot janetc_fn(JanetFopts opts, int32_t argn, const Janet *argv) {
                     namedargs = 1;
                     named_table = janet_table(10);
                     named_slot = janetc_farslot(c);
+                    janet_v_push(argregs, named_slot.index);
                 } else {
-                    janetc_nameslot(c, sym, janetc_farslot(c));
+                    JanetSlot argslot = janetc_farslot(c);
+                    janet_v_push(argregs, argslot.index);
+                    janetc_nameslot(c, sym, argslot);
                 }
             } else {
-                janetc_nameslot(c, sym, janetc_farslot(c));
+                JanetSlot argslot = janetc_farslot(c);
+                janet_v_push(argregs, argslot.index);
+                janetc_nameslot(c, sym, argslot);
             }
         } else {
-            janet_v_push(destructed_params, janetc_farslot(c));
+            JanetSlot argslot = janetc_farslot(c);
+            janet_v_push(argregs, argslot.index);
+            janet_v_push(destructed_params, argslot);
         }
     }
+    janetc_fn_moveargs(c, argregs);
+    janet_v_free(argregs);
 
     /* Compile destructed params */
     int32_t j = 0;
